@@ -338,10 +338,10 @@ done:
 		res.Probes["render-error"]++
 	}
 	res.Outcome = fmt.Sprintf("renders=%d err=%q manifest=%dB hooks=%dB notes=%dB subnotes=%v dns=%v schemaRef=%s", nRenders, trunc(base.Err, 60), len(base.Manifest), len(base.Hooks), len(base.Notes), rs.SubNotes, rs.DNS, rs.SchemaRef)
-	res.Signature = bodyHash([]byte(base.key() + fmt.Sprint(rs.SchemaRef, rs.DNS, rs.SubNotes)))
+	res.Signature = bodyHash([]byte(strings.ReplaceAll(base.key(), dir, "<TMP>") + fmt.Sprint(rs.SchemaRef, rs.DNS, rs.SubNotes)))
 	res.NonTrivial = nRenders > 2
 	res.Events = nRenders
-	res.EventHash = bodyHash([]byte(base.key()))
+	res.EventHash = bodyHash([]byte(strings.ReplaceAll(base.key(), dir, "<TMP>")))
 	return res
 }
 
